@@ -119,7 +119,10 @@ class Universal:
       "assert [C12] args[2] == (6 if n < 904960 else 7 if n < 2068480 else 8 if n < 4654080 else 9 if n < 10342400 "
       "else 10 if n < 22753280 else 11 if n < 49643520 else 12 if n < 107560960 else 13 if n < 231669760 "
       "else 14 if n < 496435200 else 15 if n < 1059061760 else 16)",
-      "assert [C12] args[3] == 10 * pow2(args[2])"]}
+      "assert [C12] args[3] == 10 * pow2(args[2])",
+      # what the second contract of UniversalImpl (#table, below) requires of its caller
+      "assert [C12] args[0] == bits and args[1] == n and args[2] >= 1 and args[2] <= 16",
+      "assert [C12] args[3] <= idiv(args[1], args[2])"]}
   props = ["C12"]
 
 
@@ -209,4 +212,32 @@ class OverlappingTemplateMatching:
   raises = {"InsufficientDataError": ("C12", "n < 1032")}
   on_call = {SPLIT: ["assert [C12] args[1] == n and args[2] == 1032"],
              f"{N}::OverlappingTemplateMatchingImpl": ["assert [C12] args[1] == 1032 and args[2] == 9 and len(args[0]) >= 1"]}
+  props = ["C12"]
+
+
+# C12, Maurer's universal test (NIST SP 800-22 2.9.4): the integer part of the statistic.  NIST numbers blocks from 1 and
+# initialises the table with 0 ("never seen"), so a block contributes log2(i - T[b]) with i - 0 = i for a first
+# occurrence; the code numbers blocks from 0, so "never seen" must be -1.  Second, independent contract on the function
+# (the float tail stays assumed): the table holds, for every pattern b, the position of the LAST occurrence of b among
+# the blocks processed so far, or -1 if there is none - at every distance computation.
+_LAST = ("forall(b, 0, pow2(block_size), "
+         "(tab[b] == 0 - 1 and forall(t, 0, {hi}, blocks[t] != b)) or "
+         "(0 <= tab[b] and tab[b] < {hi} and blocks[tab[b]] == b and forall(t, tab[b] + 1, {hi}, blocks[t] != b)))")
+
+
+@contract(f"{N}::UniversalImpl#table")
+class UniversalImplTable:
+  params = {"bits": "int", "n": "int", "block_size": "int", "q": "int"}
+  returns = "opaque"
+  requires = ["bits >= 0", "n >= 0", "block_size >= 1", "block_size <= 16", "q >= 0", "q <= n // block_size"]
+  loops = {0: dict(invariant=["len(tab) == pow2(block_size)", ("C12", _LAST.format(hi="i"))]),
+           1: dict(invariant=["len(tab) == pow2(block_size)", "j >= q", ("C12", _LAST.format(hi="j"))],
+                   stop_at_exit=True)}
+  # the distance handed to the logarithm: j - last, where last is the position of the previous occurrence of block j's
+  # pattern, or -1 if there is none (NIST: i - T[b] with 1-based i and T == 0 for "never seen")
+  on_call = {"builtin:math.log": [
+      "g_last = j - args[0]",
+      "assert [C12] args[1] == 2",
+      "assert [C12] (g_last == 0 - 1 and forall(t, 0, j, blocks[t] != blocks[j])) or (0 <= g_last and g_last < j and "
+      "blocks[g_last] == blocks[j] and forall(t, g_last + 1, j, blocks[t] != blocks[j]))"]}
   props = ["C12"]
